@@ -217,6 +217,9 @@ class Pool(Plugin):
     def extra_header(self):
         return header_defs()
 
+    def header_for(self, case):
+        return self.header + "\n" + self.extra_header()
+
     def gen_case(self, rng, tier):
         timed = rng.random() < self.timed_fraction
         pool = rng.random() > 0.04
